@@ -195,6 +195,8 @@ func DefaultIntrinsics() map[string]Intrinsic {
 	rtIntrinsics(m)
 	containerIntrinsics(m)
 	timeIntrinsics(m)
+	atomicIntrinsics(m)
+	timerIntrinsics(m)
 	stdIntrinsics(m)
 	return m
 }
